@@ -55,8 +55,8 @@ from pulser.devices import VirtualDevice
 PROP = "C18"
 TARGETS_MODEL = ["PulserModel.Switch", "Proofs.Switch", "Driver.Seq"]
 TARGETS = ["PulserModel.Generated.StrictParams", *TARGETS_MODEL, "Properties.C18"]
-N_SEQ = {"quick": 600, "thorough": 6000}
-VARIANTS = {"quick": 10, "thorough": 24}
+N_SEQ = {"quick": 600, "thorough": 4000}
+VARIANTS = {"quick": 10, "thorough": 20}
 
 TRUSTED_BASE = [
     "Lean 4.33 kernel; axioms allowed: propext, Classical.choice, Quot.sound (audited per theorem)",
